@@ -10,11 +10,13 @@ import (
 	"crypto/sha256"
 	"crypto/x509"
 	"crypto/x509/pkix"
+	"encoding/asn1"
 	"encoding/binary"
 	"encoding/json"
 	"fmt"
 	"math/big"
 	"net"
+	"regexp"
 	"sync"
 	"time"
 
@@ -84,8 +86,59 @@ func simTemplateCert() []byte {
 // simParseableCert returns a distinct, well-formed (though not validly
 // signed) certificate for id: the template with the host label patched.
 func simParseableCert(id int) []byte {
-	return bytes.ReplaceAll(simTemplateCert(), []byte(simPlaceholder), []byte(fmt.Sprintf("h%08d.example.com", id%100000000)))
+	tmpl := simTemplateCert()
+	if id%5 == 2 {
+		tmpl = simQuirkyTemplateCert()
+	}
+	return bytes.ReplaceAll(tmpl, []byte(simPlaceholder), []byte(fmt.Sprintf("h%08d.example.com", id%100000000)))
 }
+
+var simQuirky struct {
+	once sync.Once
+	der  []byte
+	err  error
+}
+
+// simQuirkyIP is an iPAddress subjectAltName of five bytes: an encoding defect that certificate parsers written for
+// Certificate Transparency tolerate (the certificate parses, the defect is reported as non-fatal, the other names are
+// available), while crypto/x509 refuses the whole certificate.
+var simQuirkyIP = []byte{10, 9, 8, 7, 99}
+
+// simQuirkyTemplateCert is the template certificate with such a defect in its subjectAltName extension.
+func simQuirkyTemplateCert() []byte {
+	simQuirky.once.Do(func() {
+		k, err := keygen.ECDSA(elliptic.P256(), []byte("verif template certificate key 000000000000"))
+		if err != nil {
+			simQuirky.err = err
+			return
+		}
+		san, err := asn1.Marshal([]asn1.RawValue{
+			{Class: asn1.ClassContextSpecific, Tag: 2, Bytes: []byte(simPlaceholder)},
+			{Class: asn1.ClassContextSpecific, Tag: 2, Bytes: []byte("alt.example.org")},
+			{Class: asn1.ClassContextSpecific, Tag: 7, Bytes: []byte{10, 1, 2, 3}},
+			{Class: asn1.ClassContextSpecific, Tag: 7, Bytes: simQuirkyIP},
+		})
+		if err != nil {
+			simQuirky.err = err
+			return
+		}
+		tmpl := &x509.Certificate{
+			SerialNumber: big.NewInt(0x5eee),
+			Subject: pkix.Name{CommonName: simPlaceholder, Organization: []string{"Verif Org"}, Country: []string{"IT"},
+				Locality: []string{"Roma"}, Province: []string{"RM"}, OrganizationalUnit: []string{"unit"}, StreetAddress: []string{"via x"}, PostalCode: []string{"00100"}},
+			NotBefore:       time.Unix(1_700_000_000, 0),
+			NotAfter:        time.Unix(1_800_000_000, 0),
+			ExtraExtensions: []pkix.Extension{{Id: asn1.ObjectIdentifier{2, 5, 29, 17}, Value: san}},
+		}
+		simQuirky.der, simQuirky.err = x509.CreateCertificate(rand.Reader, tmpl, tmpl, k.Public(), k)
+	})
+	if simQuirky.err != nil {
+		panic("VERIF-INCONCLUSIVE: cannot build template certificate: " + simQuirky.err.Error())
+	}
+	return simQuirky.der
+}
+
+var simHostLabel = regexp.MustCompile(`h[0-9]{8}\.example\.com`)
 
 var simSharedIssuers = func() [][]byte {
 	var out [][]byte
@@ -167,7 +220,23 @@ func simExpectedNamesLine(e *vfref.Entry) (map[string]any, bool) {
 	}
 	c, err := x509.ParseCertificate(der)
 	if err != nil {
-		return nil, false
+		host := simHostLabel.Find(der)
+		if host == nil || !bytes.Equal(bytes.ReplaceAll(simQuirkyTemplateCert(), []byte(simPlaceholder), host), der) {
+			return nil, false
+		}
+		// the harness' own certificate with a tolerated encoding defect (an iPAddress name of five bytes): its names
+		// tile line carries the subject, the dNSNames and the well-formed iPAddress
+		arr := func(v ...string) []any {
+			a := make([]any, len(v))
+			for i := range v {
+				a[i] = v[i]
+			}
+			return a
+		}
+		return map[string]any{"Timestamp": json.Number(fmt.Sprint(e.Timestamp)),
+			"Subject": map[string]any{"CommonName": string(host), "Organization": arr("Verif Org"), "Country": arr("IT"), "Locality": arr("Roma"),
+				"Province": arr("RM"), "OrganizationalUnit": arr("unit"), "StreetAddress": arr("via x"), "PostalCode": arr("00100")},
+			"DNS": arr(string(host), "alt.example.org"), "IP": arr("10.1.2.3")}, true
 	}
 	subj := map[string]any{}
 	put := func(k string, v []string) {
